@@ -1,5 +1,6 @@
-\* quick tier: every transition of the bounded state graph (3 keys, present/absent, 3 blocks, capacity 2)
-CONSTANTS NK = 3  NV = 1  Cap = 2  MaxH = 3  RecordHist = TRUE  SimDepth = 0
+\* quick: every transition; 3 keys present/absent, 3 blocks, capacity 2 (eviction), no restarts
+CONSTANTS NK = 3  Cap = 2  MaxH = 3  Restarts = FALSE  RecordHist = TRUE  SimDepth = 0
+CONSTANT Vals <- V1
 CONSTANT Dev <- DevNone
 INIT Init
 NEXT NextCover
